@@ -5,6 +5,8 @@
 //!   PAT   `match (x: τ) { <digits><suffix> => … }`  goast `switch` case literal
 //!   OP    one operator × type × operand shape        goast operator node, operand kinds/types, printed symbol
 //!   FLT   float literals (validation only)           Core bits vs Rust's correctly rounded parse
+//!   FC    float operators on literal operands (lit op lit, chains, nested, with variables, conditions, call arguments):
+//!         the real printed Go text with literal TEXTS kept + the real Core dump
 //!   PARSE arbitrary strings through `str::parse::<iN/uN>` (the std function check.rs calls)
 //!   EVAL  Rust wrapping arithmetic on operand pairs (third opinion for the Lean operator semantics)
 //!   FMT   `iN::to_string` (what `go_literal_from_primitive` prints)
@@ -258,6 +260,10 @@ impl Out {
         self.n += 1;
         let _ = writeln!(self.f, "{}\t{}\t{}\t{}\t{}", self.n, kind, input.to_text(), esc_line(outcome), esc_line(src));
     }
+    fn case_x(&mut self, kind: &str, input: S, outcome: &str, src: &str, extra: &str) {
+        self.n += 1;
+        let _ = writeln!(self.f, "{}\t{}\t{}\t{}\t{}\t{}", self.n, kind, input.to_text(), esc_line(outcome), esc_line(src), extra);
+    }
     fn compile(&mut self, src: &str) -> Outcome {
         let d = self.dir.join(format!("p{}", self.n % 64));
         util::compile_text(&d, src)
@@ -450,6 +456,202 @@ fn pat_case(out: &mut Out, digits: &str, sfx: &str, scrut: &str, shape: &str) {
         Outcome::Panic(m) => format!("panic {}", m.replace(['\n', '\t'], " ")),
     };
     out.case("PAT", l(vec![a("pat"), a(digits), a(if sfx.is_empty() { "-" } else { sfx }), a(scrut), a(shape)]), &res, &src);
+}
+
+// ------------------------------------------------------------------ FC: float operators whose operands are literals
+/// a float expression over literals, the parameters `a`/`b`, `g(x) = x + 0.25`, comparisons and `if`
+#[derive(Clone, Debug)]
+pub enum FE {
+    Lit(String),
+    Var(&'static str),
+    Bin(&'static str, Box<FE>, Box<FE>),
+    Neg(Box<FE>),
+    Call(Box<FE>),
+    Cmp(&'static str, Box<FE>, Box<FE>),
+    If(Box<FE>, Box<FE>, Box<FE>),
+}
+
+fn lit(t: &str) -> FE {
+    FE::Lit(t.to_string())
+}
+fn bin(op: &'static str, x: FE, y: FE) -> FE {
+    FE::Bin(op, Box::new(x), Box::new(y))
+}
+fn cmp(op: &'static str, x: FE, y: FE) -> FE {
+    FE::Cmp(op, Box::new(x), Box::new(y))
+}
+
+impl FE {
+    fn src(&self, sfx: &str) -> String {
+        match self {
+            FE::Lit(t) => format!("{}{}", t, sfx),
+            FE::Var(v) => v.to_string(),
+            FE::Bin(op, x, y) => format!("({} {} {})", x.src(sfx), op, y.src(sfx)),
+            FE::Neg(x) => format!("-{}", x.src(sfx)),
+            FE::Call(x) => format!("g({})", x.src(sfx)),
+            FE::Cmp(op, x, y) => format!("{} {} {}", x.src(sfx), op, y.src(sfx)),
+            FE::If(c, t, e) => format!("if {} {{ {} }} else {{ {} }}", c.src(sfx), t.src(sfx), e.src(sfx)),
+        }
+    }
+    fn sexp(&self) -> S {
+        match self {
+            FE::Lit(t) => l(vec![a("lit"), a(t.clone())]),
+            FE::Var(v) => l(vec![a("var"), a(*v)]),
+            FE::Bin(op, x, y) => l(vec![a("bin"), a(*op), x.sexp(), y.sexp()]),
+            FE::Neg(x) => l(vec![a("neg"), x.sexp()]),
+            FE::Call(x) => l(vec![a("call"), x.sexp()]),
+            FE::Cmp(op, x, y) => l(vec![a("cmp"), a(*op), x.sexp(), y.sexp()]),
+            FE::If(c, t, e) => l(vec![a("if"), c.sexp(), t.sexp(), e.sexp()]),
+        }
+    }
+    fn is_bool(&self) -> bool {
+        matches!(self, FE::Cmp(..))
+    }
+    fn uses_call(&self) -> bool {
+        match self {
+            FE::Call(_) => true,
+            FE::Bin(_, x, y) | FE::Cmp(_, x, y) => x.uses_call() || y.uses_call(),
+            FE::Neg(x) => x.uses_call(),
+            FE::If(c, t, e) => c.uses_call() || t.uses_call() || e.uses_call(),
+            _ => false,
+        }
+    }
+}
+
+/// `fn f(a, b) { <expr> }` called with the literals `av`, `bv`; prints the result.  The outcome carries the REAL
+/// printed Go text parsed with literal texts kept (`goparse::parse_go_raw`) restricted to `g`, `f`, `main0`, and the
+/// real Core dump (for `Sem`).
+fn fc_case(out: &mut Out, ty: &str, e: &FE, av: &str, bv: &str, tag: &str) {
+    let sfx = if ty == "float32" { "f32" } else { "f64" };
+    let ret = if e.is_bool() { "bool" } else { ty };
+    let helper = if e.uses_call() { format!("fn g(x: {t}) -> {t} {{\n    x + 0.25{s}\n}}\n", t = ty, s = sfx) } else { String::new() };
+    let src = format!(
+        "{helper}fn f(a: {t}, b: {t}) -> {ret} {{\n    {body}\n}}\nfn main() -> unit {{\n    let _ = string_println({ret}_to_string(f({av}{s}, {bv}{s})));\n    ()\n}}\n",
+        helper = helper,
+        t = ty,
+        ret = ret,
+        body = e.src(sfx),
+        av = av,
+        bv = bv,
+        s = sfx
+    );
+    let input = l(vec![a("fc"), a(ty), a(ret), a(av), a(bv), a(tag), e.sexp()]);
+    match out.compile(&src) {
+        Outcome::Ok(c) => {
+            let text = c.go.to_pretty(&c.goenv, 120);
+            let go = match crate::goparse::parse_go_raw(&text) {
+                Ok(S::L(items)) => {
+                    let keep: Vec<S> = items
+                        .into_iter()
+                        .filter(|it| match it {
+                            S::L(v) => matches!((v.first(), v.get(1)), (Some(S::A(h)), Some(S::A(n))) if h == "func" && (n == "f" || n == "g" || n == "main0")),
+                            _ => false,
+                        })
+                        .collect();
+                    l(std::iter::once(a("gofile")).chain(keep).collect()).to_text()
+                }
+                Ok(other) => other.to_text(),
+                Err(e) => format!("(parse-error \"{}\")", e.replace('"', "'")),
+            };
+            let core = crate::c01::prog(crate::dump::core_file(&c.core), &crate::c01::impls_table(&c.genv)).to_text();
+            out.case_x("FC", input, &format!("ok {}", go), &src, &core);
+        }
+        Outcome::Err(stage, msgs) => {
+            let o = format!("reject {} {}", stage, msgs.first().cloned().unwrap_or_default().replace(['\n', '\t'], " "));
+            out.case("FC", input, &o, &src)
+        }
+        Outcome::Panic(m) => {
+            let o = format!("panic {}", m.replace(['\n', '\t'], " "));
+            out.case("FC", input, &o, &src)
+        }
+    }
+}
+
+fn fc_stream(out: &mut Out, rng: &mut Rng, thorough: bool) {
+    let ops: [&'static str; 4] = ["+", "-", "*", "/"];
+    let cmps: [&'static str; 6] = ["<", "<=", ">", ">=", "==", "!="];
+    let one_dec: Vec<String> = (1..30).map(|k| format!("{}.{}", k / 10, k % 10)).collect();
+    let core_vals = ["0.1", "0.2", "0.3", "0.6", "0.7", "0.8", "1.1", "2.5", "0.03125", "1.0"];
+    for ty in ["float32", "float64"] {
+        // literal op literal: a grid, the whole one-decimal grid in the thorough tier, seeded random pairs
+        let grid: Vec<String> = if thorough { one_dec.clone() } else { core_vals.iter().map(|s| s.to_string()).collect() };
+        for x in &grid {
+            for y in &grid {
+                for op in ops {
+                    fc_case(out, ty, &bin(op, lit(x), lit(y)), "1.5", "0.7", "lit-op-lit");
+                }
+            }
+        }
+        for _ in 0..(if thorough { 600 } else { 80 }) {
+            let pick = |rng: &mut Rng| -> String {
+                match rng.below(4) {
+                    0 => one_dec[rng.below(one_dec.len())].clone(),
+                    1 => format!("{}.{:02}", rng.below(10), rng.below(100)),
+                    2 => format!("{}.{:03}", rng.below(100), rng.below(1000)),
+                    _ => format!("0.{:05}", 1 + rng.below(99999)),
+                }
+            };
+            let (x, y) = (pick(rng), pick(rng));
+            fc_case(out, ty, &bin(ops[rng.below(4)], lit(&x), lit(&y)), "1.5", "0.7", "lit-op-lit");
+        }
+        // exact ties with a non-dyadic operand (float32: 0.1 + 2^-5), dyadic operands (always faithful)
+        for (x, y) in [("0.1", "0.03125"), ("0.03125", "0.1"), ("0.5", "0.25"), ("1.5", "2.25"), ("16777216.0", "1.0"), ("0.1", "0.0625"), ("0.3", "0.125")] {
+            for op in ops {
+                fc_case(out, ty, &bin(op, lit(x), lit(y)), "1.5", "0.7", "lit-op-lit");
+            }
+        }
+        // comparisons of two literals, and of a constant expression with a literal
+        for (x, y) in [("0.1", "0.2"), ("0.3", "0.3"), ("0.7", "0.6"), ("0.1", "0.10000000000000001"), ("1.0", "1.0")] {
+            for op in cmps {
+                fc_case(out, ty, &cmp(op, lit(x), lit(y)), "1.5", "0.7", "lit-cmp-lit");
+            }
+        }
+        for (x, y, z) in [("0.1", "0.2", "0.3"), ("0.1", "0.6", "0.7"), ("0.5", "0.25", "0.75"), ("0.1", "0.7", "0.8")] {
+            for op in cmps {
+                fc_case(out, ty, &cmp(op, bin("+", lit(x), lit(y)), lit(z)), "1.5", "0.7", "litoplit-cmp-lit");
+            }
+        }
+        // three literals (ANF names the intermediate result), both associations
+        for (x, y, z) in [("16777216.0", "1.0", "1.0"), ("0.1", "0.2", "0.3"), ("0.1", "0.6", "0.7"), ("1.1", "2.5", "0.3"), ("9007199254740992.0", "1.0", "1.0")] {
+            for (o1, o2) in [("+", "+"), ("+", "*"), ("*", "+"), ("-", "/"), ("/", "-")] {
+                fc_case(out, ty, &bin(o2, bin(o1, lit(x), lit(y)), lit(z)), "1.5", "0.7", "three-literals");
+                fc_case(out, ty, &bin(o1, lit(x), bin(o2, lit(y), lit(z))), "1.5", "0.7", "three-literals");
+            }
+        }
+        // mixed with variables: var op lit is a typed run-time operation
+        for (x, y) in [("0.1", "0.6"), ("0.3", "0.1"), ("2.5", "1.1")] {
+            for op in ops {
+                fc_case(out, ty, &bin(op, FE::Var("a"), lit(y)), x, "0.7", "var-op-lit");
+                fc_case(out, ty, &bin(op, lit(x), FE::Var("b")), "1.5", y, "lit-op-var");
+                fc_case(out, ty, &bin(op, FE::Var("a"), FE::Var("b")), x, y, "var-op-var");
+                fc_case(out, ty, &bin(op, bin(op, FE::Var("a"), lit(x)), lit(y)), "1.5", "0.7", "var-lit-lit");
+                fc_case(out, ty, &bin(op, FE::Var("a"), bin(op, lit(x), lit(y))), "1.5", "0.7", "var-litoplit");
+            }
+        }
+        // unary minus; nested; call arguments; conditions
+        for (x, y) in [("0.1", "0.6"), ("0.2", "0.3"), ("0.7", "0.1")] {
+            fc_case(out, ty, &FE::Neg(Box::new(lit(x))), "1.5", "0.7", "neg-lit");
+            fc_case(out, ty, &FE::Neg(Box::new(bin("+", lit(x), lit(y)))), "1.5", "0.7", "neg-litoplit");
+            fc_case(out, ty, &bin("+", FE::Neg(Box::new(lit(x))), lit(y)), "1.5", "0.7", "neglit-op-lit");
+            fc_case(out, ty, &bin("*", lit(x), FE::Neg(Box::new(lit(y)))), "1.5", "0.7", "lit-op-neglit");
+            fc_case(out, ty, &FE::Call(Box::new(bin("+", lit(x), lit(y)))), "1.5", "0.7", "call-arg");
+            fc_case(out, ty, &FE::Call(Box::new(lit(x))), "1.5", "0.7", "call-arg");
+            fc_case(out, ty, &bin("+", FE::Call(Box::new(bin("*", lit(x), lit(y)))), FE::Neg(Box::new(lit("0.5")))), "1.5", "0.7", "nested");
+            fc_case(out, ty, &bin("/", bin("*", lit(x), lit(y)), bin("-", lit("1.1"), lit(x))), "1.5", "0.7", "nested");
+            for op in cmps {
+                let c = cmp(op, bin("+", lit(x), lit(y)), FE::Var("a"));
+                fc_case(out, ty, &FE::If(Box::new(c), Box::new(bin("*", lit(x), lit(x))), Box::new(bin("/", FE::Var("b"), lit(y)))), "0.7", "0.3", "condition");
+            }
+            let c = cmp("==", bin("+", lit(x), lit(y)), lit("0.7"));
+            fc_case(out, ty, &FE::If(Box::new(c), Box::new(lit("1.0")), Box::new(lit("2.0"))), "0.7", "0.3", "condition");
+        }
+        // what Go refuses or reads differently as a CONSTANT: zero divisor, overflow, negative zero
+        fc_case(out, ty, &bin("/", lit("1.0"), lit("0.0")), "1.5", "0.7", "const-div-zero");
+        fc_case(out, ty, &FE::Neg(Box::new(lit("0.0"))), "1.5", "0.7", "neg-zero");
+        let big = if ty == "float32" { "340282346638528859811704183484516925440.0".to_string() } else { format!("17976931348623157{}.0", "0".repeat(292)) };
+        fc_case(out, ty, &bin("*", lit(&big), lit("10.0")), "1.5", "0.7", "const-overflow");
+        fc_case(out, ty, &bin("+", lit(&big), lit(&big)), "1.5", "0.7", "const-overflow");
+    }
 }
 
 // ------------------------------------------------------------------ OP
@@ -979,6 +1181,9 @@ pub fn main(args: &Args) {
             }
         }
     }
+
+    // ---- FC: float constant expressions
+    fc_stream(&mut out, &mut rng, thorough);
 
     // ---- FMT
     for (_, rust, _, bits) in INT_TYS {
